@@ -14,7 +14,7 @@ from ..spec import Tree, reorder, to_statechart, to_yaml_text
 PROP = 'C07'
 LEVEL = 'exploration'
 BUDGET = {'quick': 2400, 'thorough': 48000}
-XPROC_PER_WORKER = {'quick': 14, 'thorough': 250}
+XPROC_PER_WORKER = {'quick': 24, 'thorough': 300}
 HASHSEEDS = ['0', '1', '2', 'random', 'random']
 RULE = ('cases = well-formed instrumented chart + input history + a second random declaration '
         'order (permutation of every children list and of the transition list). The chart is '
@@ -30,6 +30,8 @@ ASSUMPTIONS = ['PYTHONHASHSEED quantifier reduced to 5 seeds per batch',
                'contracts off; guards are table look-ups']
 MIX = (('sibling', 20), ('other', 20), ('orthin', 20), ('anc', 20), ('desc', 5), ('hist', 5),
        ('internal', 10))
+HIST_MIX = (('sibling', 25), ('other', 15), ('orthin', 5), ('anc', 15), ('desc', 5), ('hist', 30),
+            ('internal', 5))
 
 _BATCH = []
 
@@ -48,7 +50,22 @@ def strategy(tier):
         return {'spec': spec, 'ops': ops,
                 'keysB': {s['name']: k for s, k in zip(spec['states'], keys)},
                 'permB': list(perm)}
-    return cases()
+
+    @st.composite
+    def histories_over_orthogonal(draw):
+        # deep/shallow history over orthogonal content: what is restored comes out of sets
+        spec = draw(gen.charts(max_states=16 if big else 13, mix=HIST_MIX, p_hist=0.8,
+                               force_history=True, p_orth_root=0.2, orth_weight=5,
+                               allow_final=False, n_events=2, min_tr=6, max_tr=14,
+                               p_eventless=0.05, p_sends=0.3))
+        ops = draw(gen.histories(spec, 8, 24, n_events=2, p_all=0.5, p_none=0.05))
+        n = len(spec['states'])
+        keys = draw(st.lists(st.integers(0, 1000), min_size=n, max_size=n, unique=True))
+        perm = draw(st.permutations(list(range(len(spec['transitions'])))))
+        return {'spec': spec, 'ops': ops,
+                'keysB': {s['name']: k for s, k in zip(spec['states'], keys)},
+                'permB': list(perm)}
+    return st.one_of(cases(), cases(), histories_over_orthogonal())
 
 
 def run_sig(spec, sc, ops):
@@ -137,8 +154,17 @@ def oracle(case):
                     labels['exit of an orthogonal state whose children order differs'] = 1
     if nontrivial:
         keys.append(sha([case['spec'], case['keysB'], case['permB'], case['ops']]))
-    if not viol and len(_BATCH) < _BATCH_MAX[0]:
-        _BATCH.append(case)
+    # cross-process batch: prefer runs that restored several states from a history memory or
+    # entered several states in one stabilisation step (their order comes out of sets)
+    multi = any(len(m['entered']) >= 2 and not m['has_t'] for s in sigs['apiA'] if s['result']
+                for m in s['result']['micro'])
+    if multi:
+        labels['run with a multi-state default/history entry'] = 1
+    if not viol:
+        if multi and len(_BATCH_HOT) < _BATCH_MAX[0]:
+            _BATCH_HOT.append(case)
+        elif len(_BATCH) < _BATCH_MAX[0]:
+            _BATCH.append(case)
     return {'violations': viol, 'labels': labels, 'keys': keys,
             'sample': {'states': [s['name'] + ':' + s['kind'] for s in case['spec']['states']],
                        'orderB': case['keysB'], 'permB': case['permB'],
@@ -146,6 +172,7 @@ def oracle(case):
 
 
 _BATCH_MAX = [0]
+_BATCH_HOT = []
 
 
 def xproc_oracle(cases):
@@ -183,9 +210,10 @@ def xproc_oracle(cases):
 
 def extra(tier, seed, widx):
     """cross-process tier, on the cases collected by this worker"""
-    if not _BATCH:
+    batch = (list(_BATCH_HOT) + list(_BATCH))[:_BATCH_MAX[0]]
+    if not batch:
         return None
-    r = xproc_oracle(list(_BATCH))
+    r = xproc_oracle(batch)
     out = {'evaluations': r['n'] * len(HASHSEEDS), 'labels': r['labels']}
     if r['violations']:
         v = r['violations'][0]
